@@ -55,10 +55,11 @@ func (fr *Frame) lookup(st *State, i *ssa.Lookup) Value {
 }
 
 // specFunc: specification builtins of the ring layer.
-//   vec(x)            coordinates of an extension-field element (fields of the struct, in order) as a vector
-//   qmul(nr, a, b)    product of two coordinate vectors in R[X]/(X^k - nr), computed by schoolbook convolution
-//   qsq(nr, a)        square
-//   svec(k, i1, v1, ...) sparse vector of length k with the given coordinates, zero elsewhere
+//
+//	vec(x)            coordinates of an extension-field element (fields of the struct, in order) as a vector
+//	qmul(nr, a, b)    product of two coordinate vectors in R[X]/(X^k - nr), computed by schoolbook convolution
+//	qsq(nr, a)        square
+//	svec(k, i1, v1, ...) sparse vector of length k with the given coordinates, zero elsewhere
 func (v *Verifier) specFunc(se *SpecEnv, name string, c *ast.CallExpr) (Value, bool) {
 	F := v.F
 	switch name {
@@ -175,7 +176,7 @@ func (v *Verifier) specFunc(se *SpecEnv, name string, c *ast.CallExpr) (Value, b
 		t := vecArgs(se, c)
 		x, y, a := t[0], t[1], t[2]
 		M := F.Add(F.Mul(F.I64(3), x, x), a) // 3x^2 + a
-		E := F.Mul(F.I64(2), y)               // 2y
+		E := F.Mul(F.I64(2), y)              // 2y
 		E2 := F.Mul(E, E)
 		xn := F.Sub(F.Mul(M, M), F.Mul(F.I64(2), x, E2))
 		if name == "ecDblXNum" {
